@@ -3,19 +3,25 @@
 #include "common/vh.h"
 #include "oracle/complex_model.h"
 #include <tuple>
-// only declarations needed here: keep this TU light
-namespace stc { struct History; }
 #include "common/st_common.h"
 
 namespace c01 {
-void run_default(vh::Case&, const stc::History&);
-void run_full(vh::Case&, const stc::History&);
-void run_minimal(vh::Case&, const stc::History&);
-void run_fastp(vh::Case&, const stc::History&);
-void run_fastcof(vh::Case&, const stc::History&);
-void run_stable(vh::Case&, const stc::History&);
-void run_mini(vh::Case&, const stc::History&);
-void run_lowfull(vh::Case&, const stc::History&);
+// sample > 0: per-simplex sweeps on at most that many simplices per step (large complexes)
+void run_default(vh::Case&, const stc::History&, int sample);
+void run_full(vh::Case&, const stc::History&, int sample);
+void run_minimal(vh::Case&, const stc::History&, int sample);
+void run_fastp(vh::Case&, const stc::History&, int sample);
+void run_fastcof(vh::Case&, const stc::History&, int sample);
+void run_stable(vh::Case&, const stc::History&, int sample);
+void run_mini(vh::Case&, const stc::History&, int sample);
+void run_lowfull(vh::Case&, const stc::History&, int sample);
+// two option sets side by side, operator== across them after every step
+void cross_default_fastcof(vh::Case&, const stc::History&);
+void cross_full_stable(vh::Case&, const stc::History&);
+void cross_minimal_mini(vh::Case&, const stc::History&);
+void cross_lowfull_default(vh::Case&, const stc::History&);
+void cross_fastp_full(vh::Case&, const stc::History&);
+void cross_fastp_lowfull(vh::Case&, const stc::History&);
 }
 
 static void finish(vh::Case& c, const stc::History& h) {
@@ -24,37 +30,103 @@ static void finish(vh::Case& c, const stc::History& h) {
   if (h.max_dim >= 3) c.count("hist.reaches_dim3");
   if (h.reinsertion_after_removal) c.count("hist.reinsertion_after_removal");
   c.count("hist.emptied_steps", h.emptied);
+  bool ext_lab = false; for (long x : h.universe) if (x == INT_MIN || x == INT_MAX || x == SHRT_MIN || x == SHRT_MAX) ext_lab = true;
+  if (ext_lab) c.count("hist.extreme_labels");
+  bool ninf = false, pinf = false, neg = false, prune_ninf = false;
+  auto see = [&](double v) { if (v == -std::numeric_limits<double>::infinity()) ninf = true; else if (v == std::numeric_limits<double>::infinity()) pinf = true; else if (v < 0) neg = true; };
+  for (auto& op : h.ops) {
+    if (op.kind == stc::INS || op.kind == stc::INSF || op.kind == stc::BATCH) see(op.v);
+    if (op.kind == stc::GRAPH) { for (double v : op.gv) see(v); for (auto& e : op.ge) see(std::get<2>(e)); }
+    if (op.kind == stc::STREAM) for (auto& e : op.stream) see(e.second);
+    if (op.kind == stc::PRUNE_F && op.v == -std::numeric_limits<double>::infinity()) prune_ninf = true;
+  }
+  if (ninf) c.count("hist.value_minus_infinity");
+  if (pinf) c.count("hist.value_plus_infinity");
+  if (neg) c.count("hist.value_negative");
+  if (prune_ninf) c.count("hist.prune_threshold_minus_infinity");
   c.sample("{\"universe\":" + vh::vstr(h.universe) + ",\"ops\":\"" + vh::jesc(hs.substr(0, 900)) + "\"}");
 }
 
-// general labels (sparse, negative, large), filtration stored
+static const stc::GenExt& ext_all() { static const stc::GenExt e; return e; }
+static stc::History gen_general(vh::Case& c) { return stc::generate_history(c.rng, false, 40, true, false, nullptr, nullptr, 1, &ext_all()); }
+static stc::History gen_small(vh::Case& c) { return stc::generate_history(c.rng, false, 40, false, true, nullptr, nullptr, 1, &ext_all()); }
+static stc::History gen_contiguous(vh::Case& c) { return stc::generate_history(c.rng, true, 40, true, true, nullptr, nullptr, 1, &ext_all()); }
+
+// general labels (sparse, negative, large, INT_MIN / INT_MAX), filtration stored
 VH_CONFIG("general", [](vh::Case& c) {
-  stc::History h = stc::generate_history(c.rng, false, 40, true, false);
+  stc::History h = gen_general(c);
   c.log("universe=" + vh::vstr(h.universe));
-  c01::run_default(c, h); if (c.failed) return;
-  c01::run_full(c, h); if (c.failed) return;
-  c01::run_fastcof(c, h); if (c.failed) return;
-  c01::run_stable(c, h); if (c.failed) return;
+  c01::run_default(c, h, 0); if (c.failed) return;
+  c01::run_full(c, h, 0); if (c.failed) return;
+  c01::run_fastcof(c, h, 0); if (c.failed) return;
+  c01::run_stable(c, h, 0); if (c.failed) return;
   finish(c, h);
 });
 // labels fitting in 16 bits, option sets with short vertex handles; no pruning by value so that the
 // filtration-less option sets can replay the same history
 VH_CONFIG("small_labels_nofilt", [](vh::Case& c) {
-  stc::History h = stc::generate_history(c.rng, false, 40, false, true);
+  stc::History h = gen_small(c);
   c.log("universe=" + vh::vstr(h.universe));
-  c01::run_minimal(c, h); if (c.failed) return;
-  c01::run_mini(c, h); if (c.failed) return;
-  c01::run_lowfull(c, h); if (c.failed) return;
-  c01::run_default(c, h); if (c.failed) return;
+  c01::run_minimal(c, h, 0); if (c.failed) return;
+  c01::run_mini(c, h, 0); if (c.failed) return;
+  c01::run_lowfull(c, h, 0); if (c.failed) return;
+  c01::run_default(c, h, 0); if (c.failed) return;
   finish(c, h);
 });
 // contiguous vertices {0..n-1} at all times: the precondition of Options::contiguous_vertices
 VH_CONFIG("contiguous", [](vh::Case& c) {
-  stc::History h = stc::generate_history(c.rng, true, 40, true, true);
+  stc::History h = gen_contiguous(c);
   c.log("universe=" + vh::vstr(h.universe));
-  c01::run_fastp(c, h); if (c.failed) return;
-  c01::run_lowfull(c, h); if (c.failed) return;
-  c01::run_full(c, h); if (c.failed) return;
+  c01::run_fastp(c, h, 0); if (c.failed) return;
+  c01::run_lowfull(c, h, 0); if (c.failed) return;
+  c01::run_full(c, h, 0); if (c.failed) return;
+  finish(c, h);
+});
+// 16-64 labels (dense 0..m-1, scattered 16-bit labels with both extremes, or an arithmetic progression), simplices of at most
+// 5 vertices; lookups are sampled (every present simplex + random subsets + neighbours of present simplices) and the
+// per-simplex sweeps run on a sample of the simplices
+static void large_universe_case(vh::Case& c) {
+  vh::Rng& r = c.rng;
+  int m = 16 + (int)r.below(49);
+  std::vector<long> uni;
+  unsigned kind = (unsigned)r.below(3);
+  if (kind == 0) { for (int i = 0; i < m; ++i) uni.push_back(i); }
+  else if (kind == 1) {
+    std::set<long> s{SHRT_MIN, SHRT_MAX};
+    while ((int)s.size() < m) { long x = r.range(SHRT_MIN, SHRT_MAX); if (x != -1) s.insert(x); }
+    uni.assign(s.begin(), s.end()); r.shuffle(uni);
+  } else { long a = r.range(-20000, 1000), st = 1 + (long)r.below(300); for (int i = 0; i < m; ++i) if (a + st * i != -1) uni.push_back(a + st * i); }
+  stc::GenExt e; e.big = true; e.max_simplex_size = 5;
+  stc::History h = stc::generate_history(r, false, 25, true, true, nullptr, &uni, 1, &e);
+  c.log("universe=" + vh::vstr(h.universe));
+  c.count("hist.large_universe");
+  c01::run_default(c, h, 16); if (c.failed) return;
+  c01::run_fastcof(c, h, 16); if (c.failed) return;
+  c01::run_stable(c, h, 16); if (c.failed) return;
+  c01::run_lowfull(c, h, 16); if (c.failed) return;
+  finish(c, h);
+}
+VH_CONFIG("large_universe", large_universe_case);
+// operator== across option sets, the two trees in independently refreshed / stale states
+VH_CONFIG("cross_general", [](vh::Case& c) {
+  stc::History h = gen_general(c);
+  c.log("universe=" + vh::vstr(h.universe));
+  c01::cross_default_fastcof(c, h); if (c.failed) return;
+  c01::cross_full_stable(c, h); if (c.failed) return;
+  finish(c, h);
+});
+VH_CONFIG("cross_small_labels", [](vh::Case& c) {
+  stc::History h = gen_small(c);
+  c.log("universe=" + vh::vstr(h.universe));
+  c01::cross_minimal_mini(c, h); if (c.failed) return;
+  c01::cross_lowfull_default(c, h); if (c.failed) return;
+  finish(c, h);
+});
+VH_CONFIG("cross_contiguous", [](vh::Case& c) {
+  stc::History h = gen_contiguous(c);
+  c.log("universe=" + vh::vstr(h.universe));
+  c01::cross_fastp_full(c, h); if (c.failed) return;
+  c01::cross_fastp_lowfull(c, h); if (c.failed) return;
   finish(c, h);
 });
 VH_MAIN()
